@@ -64,10 +64,13 @@ def fresh_fn(prefix, *sorts):
 def FA(vs, body, pats=None):
     if not isinstance(vs, (list, tuple)):
         vs = [vs]
+    import sys as _sys
+    fr = _sys._getframe(1)
+    qid = "%s_L%d" % (fr.f_code.co_filename.rsplit("/", 1)[-1].replace(".", "_"), fr.f_lineno)   # for smt.qi.profile only
     if pats:
         pats = [z3.MultiPattern(*p) if isinstance(p, (tuple, list)) else p for p in pats]
-        return z3.ForAll(list(vs), body, patterns=pats)
-    return z3.ForAll(list(vs), body)
+        return z3.ForAll(list(vs), body, qid=qid, patterns=pats)
+    return z3.ForAll(list(vs), body, qid=qid)
 
 
 # ---------------------------------------------------------------- core theory
@@ -145,8 +148,10 @@ def _core():
                             [nth(seq_rev(s), i)]))
     # dicts: iteration order = key sequence (nth on the dict itself), distinct keys
     axiom(T, "empty-dict", len_(EMPTY_DICT) == 0)
-    axiom(T, "dict-keys-distinct", FA([s, i, j], z3.Implies(z3.And(0 <= i, i < j, j < len_(s), is_dictlike(s)),
-                                                              nth(s, i) != nth(s, j)), [(nth(s, i), nth(s, j))]))
+    # distinct keys, stated as "idx_of inverts nth" (linear in the number of index terms; the pairwise form
+    # nth(s,i) != nth(s,j) instantiates quadratically and made z3 diverge on unions, whose __args__ are duplicate-free)
+    axiom(T, "dict-keys-distinct", FA([s, i], z3.Implies(z3.And(0 <= i, i < len_(s), is_dictlike(s)), idx_of(s, nth(s, i)) == i),
+                                      [(is_dictlike(s), nth(s, i))]))
     axiom(T, "dict-set-has", FA([s, k, v, x], has(dict_set(s, k, v), x) == z3.Or(x == k, has(s, x)),
                                  [has(dict_set(s, k, v), x)]))
     axiom(T, "dict-set-get", FA([s, k, v, x], get(dict_set(s, k, v), x) == z3.If(x == k, v, get(s, x)),
@@ -230,6 +235,11 @@ def _core2():
     axiom(T, "dict-del-len", FA([s, k], z3.And(len_(dict_del(s, k)) == z3.If(has(s, k), len_(s) - 1, len_(s)), is_dictlike(dict_del(s, k))),
                                 [dict_del(s, k)]))
     axiom(T, "has-len", FA([s, x], z3.Implies(has(s, x), len_(s) >= 1), [has(s, x)]))
+    v = const("v")
+    axiom(T, "containers-not-none", z3.And(EMPTY_DICT != NONE, EMPTY_SEQ != NONE, EMPTY_SET != NONE))
+    axiom(T, "dict-set-not-none", FA([s, k, v], dict_set(s, k, v) != NONE, [dict_set(s, k, v)]))
+    axiom(T, "append-not-none", FA([s, x], seq_append(s, x) != NONE, [seq_append(s, x)]))
+    axiom(T, "set-add-not-none", FA([s, x], set_add(s, x) != NONE, [set_add(s, x)]))
 
 
 _core2()
